@@ -97,6 +97,7 @@ def gen_cases(tier, seed):
         yield ('block', tier, i, min(len(sp), i + size))
     for k in range(bounds(tier)['cli_files']):
         yield ('cli', tier, k)
+    yield ('near',)
 
 
 def describe(case):
@@ -154,6 +155,45 @@ def configs_for(ir, kind, tier='quick'):
     return cfgs
 
 
+def near_critical(r, case):
+    """S -> X ; X -> a X | b with the weight of a within 1e-3 .. 1e-6 of one (sum-product b/(1-a), finite): the direct
+    solvers (newton, linear) in single and double precision, Log and Real, against the value computed in 50 digits
+    from the very weights the grammar holds."""
+    import fggs, torch, mpmath
+    mp = mpmath.mp.clone() if hasattr(mpmath.mp, 'clone') else mpmath.mp
+    mp.dps = 50
+    T = IR.recursive_templates()['lin-scalar']
+    for lw in (-1e-3, -1e-4, -1e-5, -1e-6):
+        for sem in ('log', 'real'):
+            for dt in ('float32', 'float64'):
+                for m in ('newton', 'linear'):
+                    key = ('near', lw, sem, dt, m)
+                    try:
+                        ir = dict(T)
+                        ir['w'] = {'a': Fraction(math.exp(lw)), 'b': Fraction(1, 2)}
+                        g = IR.build_fgg(ir, sem, dt)
+                        wa, wb = [float(g.factors[n].weights.to_dense()) for n in ('a', 'b')]
+                        if sem == 'log':
+                            a_, b_ = mp.exp(mp.mpf(wa)), mp.exp(mp.mpf(wb))
+                        else:
+                            a_, b_ = mp.mpf(wa), mp.mpf(wb)
+                        if a_ >= 1:
+                            r.excl['near-critical: the weight rounds to one in this precision'] += 1
+                            continue
+                        want = b_ / (1 - a_)
+                        z = float(fggs.sum_product(g, method=m, semiring=IR.semiring(sem, dt)).to_dense())
+                        if sem == 'log':
+                            err, tol = abs(z - float(mp.log(want))), 1e-3
+                        else:
+                            err, tol = abs(z - float(want)) / float(want), 1e-3
+                        if not err <= tol:
+                            r.bad('configuration-disagrees', 'sum_product.sum_product', 'near-critical/%s/%s/%s' % (sem, m, dt), 'X -> a X | b with log a = %g: %s %s %s gives %r, the sum-product of the stored weights is %r' % (lw, sem, m, dt, z, float(mp.log(want)) if sem == 'log' else float(want)), case, key)
+                        else:
+                            r.ok(key, outcome=('near-critical', sem, dt), nontrivial=True)
+                    except Exception as e:
+                        r.exc(e, 'near-critical', case, key)
+
+
 def flag_configs(ir):
     """the (smaller) configuration set evaluated under each interpreter flag"""
     from checks.c02_recursive import is_linear
@@ -202,6 +242,8 @@ def run_case(case):
     if case[0] == 'block':
         sp = specs(case[1])[case[2]:case[3]]
         block(sp, r, case, case[1])
+    elif case[0] == 'near':
+        near_critical(r, case)
     elif case[0] == 'cli':
         cli(case[1], r, case, case[2] if len(case) > 2 else None)
     elif case[0] == 'one':
